@@ -9,6 +9,12 @@ cfg <s|e|o|k> <minTTL ns> <override>          reset; s = simple cache, e = ECS c
 q <now> <REQ> <scope> <fake> <MSG>            one request at time `now`; MSG = what the next handler answers,
                                               scope = ECS scope of that answer (simple cache: the class in the answer's
                                               question section, used by `k` only), fake = name in FakeECSFQDNs
+qf <now> <REQ>                                the same request while the next handler fails (error, no
+                                              message, unreadable ECS data): `H <MSG>` if served from cache, else `F`
+glue <hasECS> <bits> <ecs6> <remote6> <ecsCtry> <connCtry>
+                                              family, declined flag and country the ECS cache derives from the request info
+wire <simple> <size> <ecsSize> <min ns> <enabled>
+                                              which cache the configuration builds (0 none, 1 simple, 2 ECS), MinTTL, override
 fwd <REQ>                                     ECS cache: what is forwarded on a miss: DO bit, family, subnet id
 evict <REQ>                                   capacity eviction of the entries the request could hit
 low <MSG>                                     findLowestTTL
@@ -81,6 +87,22 @@ def step (s : S) : List String → S × String
         ({ s with store := o.store }, showOut o)
       | none => (s, "bad-op")
     | _ => (s, "bad-op")
+  | "qf" :: now :: rest =>
+    match parseReq rest with
+    | some (r, _) =>
+      let o := if s.kind == "e" then Ecs.stepFault s.store (nat! now) r
+               else Simple.stepFault (ttlFn s.kind) s.store (nat! now) r
+      match o.2 with
+      | some m => ({ s with store := o.1 }, "H " ++ showMsg m)
+      | none => ({ s with store := o.1 }, "F")
+    | none => (s, "bad-op")
+  | ["glue", he, bits, e6, r6, ec, cc] =>
+    let ri : RI := { hasECS := bool! he, ecsBits := nat! bits, ecsFam6 := bool! e6, remoteFam6 := bool! r6,
+                     ecsCtry := nat! ec, connCtry := nat! cc }
+    (s, s!"{showB (Ecs.famOf ri)} {showB (Ecs.declinedOf ri)} {Ecs.ctryOf ri}")
+  | ["wire", ts, size, es, mn, en] =>
+    let y : Yaml := { typeSimple := bool! ts, size := nat! size, ecsSize := nat! es, min := nat! mn, enabled := bool! en }
+    (s, s!"{y.kind} {y.cfg.minTTL} {showB y.cfg.override}")
   | "evict" :: rest =>
     match parseReq rest with
     | some (r, _) =>
